@@ -312,7 +312,7 @@ func enclosingConds(root ast.Node, target ast.Node) []string {
 var seqInteresting = map[string]bool{
 	"Snapshot": true, "RevertToSnapshot": true, "Exist": true, "CreateAccount": true, "AddBalance": true,
 	"SubBalance": true, "SetNonce": true, "GetNonce": true, "SetCode": true, "GetCode": true, "GetCodeHash": true,
-	"AddAddressToAccessList": true, "CanTransfer": true, "Transfer": true, "precompile": true,
+	"AddAddressToAccessList": true, "CanTransfer": true, "Transfer": true,
 	"RunPrecompiledContract": true, "run": true, "UseGas": true, "GetData": true,
 }
 
